@@ -353,8 +353,9 @@ Definition calc_cue_itvls (segStart segDur utcStart cueDur : Z) : hm unit :=
   let cueFullMS := i64 (cueFullS * 1000) in
   if cueFullMS =? 0 then Ret (HPanic "app.calcCueItvls: integer divide by zero") else
   let utcEnd := i64 (utcStart + segDur) in
-  let first := Z.quot utcStart cueFullMS in
-  let bound := Z.quot utcEnd cueFullMS in
+  (* /repo 6f3327b, 7bc345a: utcS runs over UTC seconds, from the multiple of cueFullS at or before the start *)
+  let first := i64 (Z.quot utcStart cueFullMS * cueFullS) in
+  let bound := Z.quot utcEnd 1000 in
   if bound <? first then Cont tt                       (* loop not entered *)
   else if 0 <? cueFullS then Cont tt                   (* at most bound-first+1 rounds *)
   else
@@ -546,7 +547,7 @@ Definition hang_ms : Z := 5000.
     sleep (the last chunk becomes available at the end of the segment). *)
 Definition chunked_tail (e : env) (a : asset) (c : cfg) (r : arep) (m : meta) (segPart : string) (nowMS : Z) : hres :=
   if String.eqb (path_ext segPart) ".jpg" then e500 else
-  let atoMS := f_to_int (PrimFloat.mul (c_ato c) f_1000) in
+  let atoMS := f_to_int (f_round (PrimFloat.mul (c_ato c) f_1000)) in   (* /repo 4ed430d: rounded *)
   let chunkDur := Z.quot (i64 (i64 (a_segDurMS a - atoMS) * r_ts r)) 1000 in
   if negb (fx_chunk_cap fx) && (u32 chunkDur =? 0) then HPanic "app.chunkSegment: integer divide by zero" else
   match encrypt_frags e c r with
